@@ -6,7 +6,7 @@ import json
 from .kitchen import Case, Docs, run_cases, types_of, defs_of
 from .schemagen import SchemaGen
 
-CODE = {1: "verdict", 2: "decoded value", 3: "generator status", 4: "model out of fuel", 5: "outside the modelled fragment", 6: "emitted declarations (static tie)"}
+CODE = {1: "verdict", 2: "decoded value", 3: "generator status", 4: "model out of fuel", 5: "outside the modelled fragment", 6: "emitted declarations (static tie)", 7: "validator plan of an emitted method (static tie)"}
 
 
 def build_cases(ctx, n, focus, classes, prefix, gen_kwargs=None, docs_per=3, extra_schemas=(), minsized=False, fam="random", max_docs=120, schema_hook=None):
